@@ -611,7 +611,7 @@ theorem full_of {s' : Cfg α} {st : St} {stk : List (Fr α)} {g : G}
   rw [h2]
   exact ⟨h1, hx h1.2⟩
 
-/-- a data delivery, or a delivery to a sink that is not live, leaves the second layer alone -/
+/-- a delivery to a sink never touches `xviols` or `pend` -/
 theorem onOut_down_fields (g : G) (s : Nat) (d : Down α) :
     (g.onOut (machine α).shape (.down s d)).xviols = g.xviols ∧ (g.onOut (machine α).shape (.down s d)).pend = g.pend := by
   unfold G.onOut
@@ -619,10 +619,6 @@ theorem onOut_down_fields (g : G) (s : Nat) (d : Down α) :
   split
   · split <;> exact ⟨rfl, rfl⟩
   · exact ⟨rfl, rfl⟩
-
-theorem onOut_down_fin_of_data (g : G) (s : Nat) (a : α) :
-    (g.onOut (machine α).shape (.down s (.data a))).fin = g.fin := by
-  rw [onOut_data]
 
 /-- the error fan-out serves the next sink of its snapshot -/
 theorem pendOK_down {g : G} {e s1 : Nat} {r1 ks : List Nat} (hP : PendOK g e (s1 :: r1) ks) :
@@ -950,7 +946,172 @@ theorem share_safe_cs {α : Type} : ∀ s, CSReach (machine α) s →
   cs_reach_of_macro_inv (machine α) anyEnv PF FInv finv_init finv_turn
     (fun s s' m hi he _ => finv_step s s' m hi he) PF_mono
 
+/-! ## the stray message of KF5d is always a `Pull`
+
+`Viol.upNotLive i p` does not record WHICH message went to the upstream that is not live.  `share` sends `Pull` at `p0` and `Terminate`
+at `x2`, nothing else.  Here: whenever a reachable configuration is about to execute `x2`, the talkback slot holds an upstream that
+is LIVE — so the message flagged by `upNotLive i .ended` is never a `Terminate`.  Plain induction on reachability with a small-step
+invariant along the handler of a disposal (`x0 k → x1 → x2`); at the environment move that starts the handler the configuration
+satisfies the macro invariant `CInv` (`cs_reach_inv_of_envTurn`): in `core` mode a non-empty sink list means a live upstream in the
+slot, in `tfan` mode the list cannot become empty. -/
+
+/-- the talkback slot holds a live upstream -/
+def SlotLive (s : Cfg α) : Prop := ∃ i, s.st.slot = some i ∧ s.g.ph.srcPh i = .live
+
+def J (s : Cfg α) : Prop :=
+  (∀ stk, s.stack = .run .x2 :: stk → SlotLive s) ∧
+  (∀ stk, s.stack = .run .x1 :: stk → s.st.sinks = [] → SlotLive s) ∧
+  (∀ k stk, s.stack = .run (.x0 k) :: stk → s.st.sinks.erase k = [] → SlotLive s)
+
+theorem cinv_of_envTurn {s : Cfg α} (hs : CSReach (machine α) s) (ht : EnvTurn s) : CInv s :=
+  cs_reach_inv_of_envTurn (machine α) anyEnv CInv inv_init (fun s h => (inv_turn s h).1)
+    (fun s s' m hi he _ => inv_step s s' m hi he) s hs ht
+
+/-- the continuation of a frame the environment can return to is `done` or a fan-out loop -/
+theorem cont_loc {st : St} {ph : Ph} {o : Out α} {l : Loc α} {stk : List (Fr α)} (hm : CMode st ph (.wait o l :: stk)) :
+    l = .done ∨ ∃ r d, l = .fLoop r d := by
+  rcases hm with ⟨_, hs⟩ | ⟨k, hs, _⟩ | ⟨s, d, r, rest, hs, _⟩ | ⟨j, s, d, r, rest, hs, _⟩
+  · rcases hs _ List.mem_cons_self with ⟨o', ho'⟩ | ⟨s0, a, r, he, _⟩
+    · simp at ho'; exact Or.inl ho'.2
+    · simp at he; exact Or.inr ⟨_, _, he.2⟩
+  · simp at hs; exact Or.inl hs.1.2
+  · simp at hs; exact Or.inr ⟨_, _, hs.1.2⟩
+  · simp at hs; exact Or.inl hs.1.2
+
+theorem j_of_reach : ∀ s, CSReach (machine α) s → J s := by
+  intro s hs
+  induction hs with
+  | init => exact ⟨fun stk h => by simp [Sys.init] at h, fun stk h => by simp [Sys.init] at h, fun k stk h => by simp [Sys.init] at h⟩
+  | @step a b ha hab ih =>
+    have wb := cs_reach_waitBelow (machine α) anyEnv a ha
+    cases hab with
+    | op h =>
+      unfold opStep at h
+      split at h
+      · cases h
+      · split at h
+        · rename_i l stk heq
+          rw [heq] at wb
+          simp only [List.tail_cons] at wb
+          have hnr : ∀ (l' : Loc α) stk', stk ≠ .run l' :: stk' := by
+            rintro l' stk' rfl
+            obtain ⟨o, l'', hf⟩ := wb _ List.mem_cons_self
+            cases hf
+          split at h
+          all_goals (simp only [Option.some.injEq] at h; subst h)
+          · -- tau
+            rename_i s' l' hst
+            refine ⟨fun stk' he => ?_, fun stk' he hs0 => ?_, fun k stk' he hs0 => ?_⟩
+            · simp only [List.cons.injEq, Frame.run.injEq] at he
+              obtain ⟨rfl, rfl⟩ := he
+              cases l <;> simp only [machine, step] at hst <;> (try split at hst) <;> simp at hst
+              rename_i he'
+              obtain ⟨i, h1, h2⟩ := ih.2.1 stk heq (by simpa using he')
+              exact ⟨i, by rw [← hst]; exact h1, h2⟩
+            · simp only [List.cons.injEq, Frame.run.injEq] at he
+              obtain ⟨rfl, rfl⟩ := he
+              cases l <;> simp only [machine, step] at hst <;> (try split at hst) <;> simp at hst
+              rename_i k
+              subst hst
+              obtain ⟨i, h1, h2⟩ := ih.2.2 k stk heq hs0
+              exact ⟨i, h1, h2⟩
+            · simp only [List.cons.injEq, Frame.run.injEq] at he
+              obtain ⟨rfl, rfl⟩ := he
+              cases l <;> simp only [machine, step] at hst <;> (try split at hst) <;> simp at hst
+          · -- call
+            exact ⟨fun stk' he => by simp at he, fun stk' he => by simp at he, fun k stk' he => by simp at he⟩
+          · -- ret
+            exact ⟨fun stk' he => absurd he (hnr _ _), fun stk' he => absurd he (hnr _ _), fun k stk' he => absurd he (hnr _ _)⟩
+          · -- panic
+            exact ⟨fun stk' he => absurd he (hnr _ _), fun stk' he => absurd he (hnr _ _), fun k stk' he => absurd he (hnr _ _)⟩
+        · cases h
+    | env h _ =>
+      have hci := cinv_of_envTurn ha (envTurn_of_envStepCS h)
+      obtain ⟨_, hI⟩ := hci
+      cases h with
+      | @call st stk g tr c i hc hl =>
+        simp only at hI
+        refine ⟨fun stk' he => ?_, fun stk' he hs0 => ?_, fun k stk' he hs0 => ?_⟩
+        · simp only [List.cons.injEq, Frame.run.injEq] at he
+          cases i with
+          | sinkUp k u => cases u <;> simp [machine, enter] at he
+          | _ => simp [machine, enter] at he
+        · simp only [List.cons.injEq, Frame.run.injEq] at he
+          cases i with
+          | sinkUp k u => cases u <;> simp [machine, enter] at he
+          | _ => simp [machine, enter] at he
+        · simp only [List.cons.injEq, Frame.run.injEq] at he
+          obtain ⟨he, rfl⟩ := he
+          cases i with
+          | sinkUp k' u =>
+            have hlc : g.ph.sinkPh k' = .live ∧
+                (isTop c = true ∨ inGreet k' c = true ∨ inData k' c = true ∨ inDelivery c = true) := by
+              simp only [legalInCS, legalIn, crossSink, Bool.or_eq_true, Bool.and_eq_true, beq_iff_eq] at hl
+              rcases hl with ⟨h1, (h2 | h2) | h2⟩ | ⟨⟨_, h1⟩, h2⟩
+              · exact ⟨h1, Or.inl h2⟩
+              · exact ⟨h1, Or.inr (Or.inl h2)⟩
+              · exact ⟨h1, Or.inr (Or.inr (Or.inl h2))⟩
+              · exact ⟨h1, Or.inr (Or.inr (Or.inr h2))⟩
+            have hkk : k' = k := by cases u <;> simp [machine, enter] at he <;> exact he
+            subst hkk
+            have hsrc : ∀ j, (g.onIn (List.length stk) (In.sinkUp k' u : In α)).ph.srcPh j = g.ph.srcPh j := by
+              intro j; cases u <;> simp [Ph.onIn]
+            obtain ⟨_, _, _, hm⟩ := hI
+            rcases sink_cases hm hc hlc.1 hlc.2 with ⟨hcore, _⟩ | ⟨s, d, r, rest, _, _, _, ht⟩
+            · have hne : st.sinks ≠ [] := List.ne_nil_of_mem ((hcore.mem k').2 hlc.1)
+              obtain ⟨hup, hslot⟩ := hcore.up hne
+              exact ⟨st.gen - 1, hslot, by rw [hsrc]; exact hup⟩
+            · obtain ⟨x, hx, hxl⟩ := ht.keep
+              have hxk : x ≠ k' := by rintro rfl; exact hxl hlc.1
+              have := (List.mem_erase_of_ne hxk).2 hx
+              simp only at hs0
+              rw [hs0] at this; cases this
+          | _ => simp [machine, enter] at he
+      | @ret st stk g tr o l hl =>
+        simp only at hI
+        have hl' := cont_loc hI.2.2.2
+        refine ⟨fun stk' he => ?_, fun stk' he hs0 => ?_, fun k stk' he hs0 => ?_⟩
+        all_goals
+          simp only [List.cons.injEq, Frame.run.injEq] at he
+          obtain ⟨rfl, _⟩ := he
+          rcases hl' with h | ⟨_, _, h⟩ <;> cases h
+
+/-- Whenever `share` is about to send `Terminate` upstream (`x2`), the upstream in its talkback slot is live. -/
+theorem share_cs_term_live {α : Type} : ∀ s, CSReach (machine α) s → ∀ stk, s.stack = .run .x2 :: stk →
+    ∃ i, s.st.slot = some i ∧ s.g.ph.srcPh i = .live :=
+  fun s hs => (j_of_reach s hs).1
+
+/-- Every message other than `Pull` that `share` sends upstream — on any cross-sink history — goes to an upstream that is live at
+that moment: the stray message recorded as `upNotLive i .ended` (KF5d) is always a `Pull`. -/
+theorem share_cs_stray_is_pull {α : Type} : ∀ s s', CSReach (machine α) s → opStep (machine α) s = some s' →
+    ∀ i u, s'.tr = .out (.srcUp i u) :: s.tr → u = .pull ∨ s.g.ph.srcPh i = .live := by
+  intro s s' hs h i u htr
+  have hx2 := share_cs_term_live s hs
+  unfold opStep at h
+  split at h
+  · cases h
+  · split at h
+    · rename_i l stk heq
+      split at h
+      all_goals (simp only [Option.some.injEq] at h; subst h)
+      · exact absurd htr.symm (List.cons_ne_self _ _)
+      · rename_i o s1 l1 hst
+        simp only [List.cons.injEq, Ev.out.injEq, and_true] at htr
+        subst htr
+        cases l <;> simp only [machine, step] at hst <;> (try split at hst) <;> simp at hst
+        · exact Or.inl hst.1.2.symm
+        · rename_i j hslot
+          obtain ⟨i', h1, h2⟩ := hx2 stk heq
+          rw [hslot] at h1
+          cases h1
+          exact Or.inr (hst.1.1 ▸ h2)
+      · simp at htr
+      · simp at htr
+    · cases h
+
 end Cb.ShareCS
 
 #print axioms Cb.ShareCS.share_basic_cs
 #print axioms Cb.ShareCS.share_safe_cs
+#print axioms Cb.ShareCS.share_cs_term_live
+#print axioms Cb.ShareCS.share_cs_stray_is_pull
